@@ -14,6 +14,7 @@ import (
 	"sort"
 	"strings"
 	"sync"
+	"sync/atomic"
 	"time"
 )
 
@@ -206,6 +207,7 @@ func RunCheck(chk *Check, tier string, seed int64, replay string, nOverride int)
 	var wg sync.WaitGroup
 	next := 0
 	var nmu sync.Mutex
+	var violating int64
 	for w := 0; w < workers; w++ {
 		wg.Add(1)
 		go func() {
@@ -218,7 +220,15 @@ func RunCheck(chk *Check, tier string, seed int64, replay string, nOverride int)
 				if i >= n {
 					return
 				}
+				// a tree that violates the property in 40 cases needs no further cases (only the
+				// first 20 violations are printed); this keeps a check on a broken tree short
+				if atomic.LoadInt64(&violating) >= 40 {
+					return
+				}
 				results[i] = runCaseSafe(chk, c, i)
+				if len(results[i].Violations) > 0 {
+					atomic.AddInt64(&violating, 1)
+				}
 			}
 		}()
 	}
